@@ -139,7 +139,7 @@ def gen_mutiter(ctx: Ctx):
 # ----------------------------------------------------------------------------
 
 
-@rule("C20.6", ["C20", "C09"], "linked-list unlink bridges each neighbour under exactly its own condition; reference trees are detached only after they were flattened", 4)
+@rule("C20.6", ["C20", "C09", "C05", "C02"], "linked-list unlink bridges each neighbour under exactly its own condition; reference trees are detached only after they were flattened", 4)
 def c20_6(ctx: Ctx):
     repo = ctx.repo
     un = repo.func("_adt.linked_list.LinkedListNode.unlink")
